@@ -232,7 +232,7 @@ func newExec(t *testing.T) func([]string) string {
 			c3, e3 := cert.Recombine(cert.Version(f.Version), hs, c.PublicKey(), c.Curve())
 			return fmt.Sprintf("ok %s %s %s %s %s", hlib.Hex(std), hlib.Hex(hs), rt(c, c1, e1), rt(c, c2, e2), rt(c, c3, e3))
 		case "tamper":
-			if len(a) != 9 {
+			if len(a) != 10 {
 				return "bad-op"
 			}
 			ver, caver := hlib.Atoi(a[1]), hlib.Atoi(a[5])
@@ -267,7 +267,7 @@ func newExec(t *testing.T) func([]string) string {
 			sigrel := "othersig"
 			if string(f0.Signature) == string(f1.Signature) {
 				sigrel = "sigsame"
-			} else if tw, err := p256.Swap(f0.Signature); err == nil && string(tw) == string(f1.Signature) {
+			} else if tw, err := cl.SwapSig(f0.Signature); err == nil && string(tw) == string(f1.Signature) {
 				sigrel = "twin"
 			}
 			f0.Signature, f1.Signature = nil, nil
@@ -275,12 +275,41 @@ func newExec(t *testing.T) func([]string) string {
 			if f0.Desc() == f1.Desc() {
 				same = "same"
 			}
+			if a[9] == "1" {
+				fp0, _ := c0.Fingerprint()
+				pool.BlocklistFingerprint(fp0)
+			}
 			_, verr := pool.VerifyCertificate(cl.TimeOf(a[7]), c1)
 			v := "ok"
 			if verr != nil {
 				v = verifyKind(verr)
 			}
 			return fmt.Sprintf("%s %s %s", v, same, sigrel)
+		case "copy":
+			c, err := decodeStd(hlib.Atoi(a[1]), bytesArg(a[2]))
+			if err != nil {
+				return "undecodable " + decKind(err)
+			}
+			cp := c.Copy()
+			if cl.Desc(cp) != cl.Desc(c) {
+				return "differs:fields"
+			}
+			f1, e1 := c.Fingerprint()
+			f2, e2 := cp.Fingerprint()
+			if f1 != f2 || (e1 == nil) != (e2 == nil) {
+				return "differs:fingerprint"
+			}
+			m1, _ := c.Marshal()
+			m2, _ := cp.Marshal()
+			h1, _ := c.MarshalForHandshakes()
+			h2, _ := cp.MarshalForHandshakes()
+			if string(m1) != string(m2) || string(h1) != string(h2) {
+				return "differs:encoding"
+			}
+			if cp.Version() != c.Version() || cp.Curve() != c.Curve() || cp.IsCA() != c.IsCA() {
+				return "differs:fields"
+			}
+			return "same"
 		case "norm":
 			sig := bytesArg(a[1])
 			n := "err"
@@ -323,7 +352,7 @@ func codecFields(r *hlib.Rand) (cl.Fields, cert.Certificate, string) {
 	if r.Chance(1, 8) {
 		f.NotAfter = f.NotAfter.Add(time.Duration(1 + r.Intn(999999999)))
 	}
-	nameLen := hlib.Pick(r, 0, 1, 1, 4, 4, 8, 8, 20, 127, 128, 253, 254, 300)
+	nameLen := hlib.Pick(r, 0, 1, 1, 4, 4, 8, 8, 20, 127, 128, 252, 253, 254, 255, 300, 1000)
 	nm := make([]byte, nameLen)
 	for i := range nm {
 		nm[i] = byte('a' + r.Intn(26))
@@ -340,6 +369,14 @@ func codecFields(r *hlib.Rand) (cl.Fields, cert.Certificate, string) {
 		f.Groups = append(f.Groups, g+fmt.Sprint(r.Intn(5)))
 		if r.Chance(1, 10) {
 			f.Groups[len(f.Groups)-1] = g
+		}
+		if r.Chance(1, 8) { // every string at and around the decoders' limits
+			f.Groups[len(f.Groups)-1] = strings.Repeat("G", hlib.Pick(r, 127, 128, 252, 253, 254, 255, 256, 300, 1000))
+		}
+	}
+	if r.Chance(1, 60) { // whole encodings around every plausible size limit below MaxCertificateSize
+		for i, n := 0, hlib.Pick(r, 1100, 4090, 8190, 16380, 32760, 60000)/253; i < n; i++ {
+			f.Groups = append(f.Groups, fmt.Sprintf("%04d", i)+strings.Repeat("p", 246))
 		}
 	}
 	v6ok := version == 2 || r.Chance(1, 20)
@@ -469,6 +506,12 @@ func genTamper(r *hlib.Rand, n int, emit func(string, ...any)) {
 				Networks: []netip.Prefix{cl.Inside(r, netip.MustParsePrefix("10.0.0.0/8"), 16)}, PublicKey: cl.LeafPub(r, curve)}
 			if r.Bool() {
 				f.Unsafe = []netip.Prefix{netip.MustParsePrefix("10.200.0.0/16")}
+				if r.Bool() {
+					f.Unsafe = append(f.Unsafe, netip.MustParsePrefix("10.201.0.0/24"), netip.MustParsePrefix("10.202.3.0/24"))
+				}
+			}
+			if r.Chance(1, 3) {
+				f.Networks = append(f.Networks, cl.Inside(r, netip.MustParsePrefix("10.0.0.0/8"), 12))
 			}
 			raw := cl.Craft(f, key, nil)
 			c0, err := cl.Decode(ver, raw)
@@ -477,6 +520,17 @@ func genTamper(r *hlib.Rand, n int, emit func(string, ...any)) {
 			}
 			hs, _ := c0.MarshalForHandshakes()
 			now := cl.NsOf(T0+int64(r.Intn(1000)), 0)
+			emit("copy %d %s", ver, hlib.Hex(raw))
+			i++
+			// the original's other signature form while the original is blocklisted, and the original itself
+			if tw, err := cl.SwapSig(c0.Signature()); err == nil && curve == cert.Curve_P256 {
+				twraw := cl.Craft(cl.FieldsOf(c0), nil, tw)
+				if tc, err := decodeStd(ver, twraw); err == nil {
+					emit("tamper %d std %s %s %d %s %s %s 1", ver, hlib.Hex(raw), hlib.Hex(twraw), caver, hlib.Hex(caraw), now, hlib.B(tc.CheckSignature(ca.PublicKey())))
+					emit("copy %d %s", ver, hlib.Hex(twraw))
+					i += 2
+				}
+			}
 			for k := 0; k < 8 && i < n; k++ {
 				i++
 				form, base := "std", raw
@@ -488,7 +542,7 @@ func genTamper(r *hlib.Rand, n int, emit func(string, ...any)) {
 				case 0:
 					alt = base // unaltered
 				case 1: // the other signature form (P-256) / a bit flip inside the signature (25519)
-					if tw, err := p256.Swap(c0.Signature()); err == nil && curve == cert.Curve_P256 {
+					if tw, err := cl.SwapSig(c0.Signature()); err == nil && curve == cert.Curve_P256 {
 						alt = cl.Craft(cl.FieldsOf(c0), nil, tw)
 						form = "std"
 					} else {
@@ -531,7 +585,8 @@ func genTamper(r *hlib.Rand, n int, emit func(string, ...any)) {
 				if err == nil {
 					sig = hlib.B(c1.CheckSignature(ca.PublicKey()))
 				}
-				emit("tamper %d %s %s %s %d %s %s %s", ver, form, hlib.Hex(raw), hlib.Hex(alt), caver, hlib.Hex(caraw), now, sig)
+				block := hlib.B(r.Chance(1, 3))
+				emit("tamper %d %s %s %s %d %s %s %s %s", ver, form, hlib.Hex(raw), hlib.Hex(alt), caver, hlib.Hex(caraw), now, sig, block)
 			}
 		}
 	}
@@ -609,6 +664,7 @@ func gen(r *hlib.Rand, n int, tier, profile string, emit func(string, ...any)) {
 		pub := hlib.Hex(c.PublicKey())
 		emit("dec %d std 0 - %s", ver, hlib.Hex(std))
 		emit("dec %d hs %d %s %s", ver, f.Curve, pub, hlib.Hex(hs))
+		emit("copy %d %s", ver, hlib.Hex(std))
 		for k, m := 0, hlib.Pick(r, 1, 2, 4); k < m; k++ {
 			switch r.Intn(8) {
 			case 0:
@@ -632,34 +688,9 @@ func gen(r *hlib.Rand, n int, tier, profile string, emit func(string, ...any)) {
 			emit("norm %s", hlib.Hex(mutate(r, sig)))
 		}
 	}
-	// p256 boundary scalars
-	nBytes := []byte{0xff, 0xff, 0xff, 0xff, 0, 0, 0, 0, 0xff, 0xff, 0xff, 0xff, 0xff, 0xff, 0xff, 0xff, 0xbc, 0xe6, 0xfa, 0xad, 0xa7, 0x17, 0x9e, 0x84, 0xf3, 0xb9, 0xca, 0xc2, 0xfc, 0x63, 0x25, 0x51}
-	half := []byte{0x7f, 0xff, 0xff, 0xff, 0x80, 0, 0, 0, 0x7f, 0xff, 0xff, 0xff, 0xff, 0xff, 0xff, 0xff, 0xde, 0x73, 0x7d, 0x56, 0xd3, 0x8b, 0xcf, 0x42, 0x79, 0xdc, 0xe5, 0x61, 0x7e, 0x31, 0x92, 0xa8}
-	der := func(r0, s0 []byte) []byte {
-		enc := func(x []byte) []byte {
-			for len(x) > 1 && x[0] == 0 {
-				x = x[1:]
-			}
-			if x[0]&0x80 != 0 {
-				x = append([]byte{0}, x...)
-			}
-			return append([]byte{2, byte(len(x))}, x...)
-		}
-		body := append(enc(r0), enc(s0)...)
-		return append([]byte{0x30, byte(len(body))}, body...)
-	}
-	add := func(x []byte, d int) []byte {
-		y := append([]byte{}, x...)
-		for i := len(y) - 1; i >= 0 && d != 0; i-- {
-			v := int(y[i]) + d
-			y[i] = byte(v & 0xff)
-			d = v >> 8
-		}
-		return y
-	}
-	for _, s0 := range [][]byte{{0}, {1}, {0x7f}, {0x80}, half, add(half, 1), add(half, -1), nBytes, add(nBytes, -1), add(nBytes, 1), add(nBytes, -2)} {
-		emit("norm %s", hlib.Hex(der([]byte{5}, s0)))
-		emit("norm %s", hlib.Hex(der(s0, []byte{5})))
+	// p256 boundary scalars (as S and as R)
+	for _, sig := range cl.BoundarySigs(r) {
+		emit("norm %s", hlib.Hex(sig))
 	}
 }
 
